@@ -82,6 +82,31 @@ func formattersC02(c *Ctx) {
 				}
 			}
 		}
+		// the value reaches the text only through the shortest exact formatting
+		nFmt := 0
+		for _, b := range f.Blocks {
+			for _, in := range b.Instrs {
+				switch x := in.(type) {
+				case *ssa.Convert:
+					fb, ok1 := x.X.Type().Underlying().(*types.Basic)
+					tb, ok2 := x.Type().Underlying().(*types.Basic)
+					if ok1 && ok2 && fb.Info()&types.IsFloat != 0 && tb.Info()&types.IsInteger != 0 {
+						c.Bad("C02.formatters", "NumberLiteral.String: float converted to "+tb.Name(), x.Pos(), "the float is printed through an integer conversion: values at or beyond the integer range wrap (2^63 prints as -9223372036854775808.0), and the bound test in float arithmetic cannot exclude them")
+					}
+				case *ssa.Call:
+					if cal := x.Call.StaticCallee(); cal != nil && cal.String() == "strconv.FormatFloat" {
+						nFmt++
+						prec, ok1 := x.Call.Args[2].(*ssa.Const)
+						bits, ok2 := x.Call.Args[3].(*ssa.Const)
+						good := ok1 && ok2 && prec.Value != nil && bits.Value != nil && prec.Value.String() == "-1" && bits.Value.String() == "64"
+						c.Check(good, "C02.formatters", fmt.Sprintf("NumberLiteral.String: FormatFloat #%d is shortest-exact", nFmt), x.Pos(), "precision must be -1 and size 64: any other setting prints a neighbouring float")
+					}
+				}
+			}
+		}
+		if nFmt == 0 {
+			c.Unk("C02.formatters", "NumberLiteral.String: FormatFloat", f.Pos(), "the value is not formatted by strconv.FormatFloat")
+		}
 		nonFinite := true
 		for _, s := range cmpConsts {
 			if s != "NaN" && s != "+Inf" && s != "-Inf" {
